@@ -146,3 +146,35 @@ func Verif_C07_move() {
 	}
 	verif_reach("move checked")
 }
+
+// ---- later times: after a split the two accounts together keep locked what the sender alone would have had locked.
+// (now, later) pairs are chosen so that the elapsed fractions of the sender at both instants and of the recipient at the later
+// instant are dyadic.
+func Verif_C07_later_conservation() {
+	k := verifVestingKeeper()
+	pairs := [][2]int64{{-5, c07Len / 2}, {c07Len / 2, 3 * c07Len / 4}}
+	if verif_tier() > 0 {
+		pairs = append(pairs, [2]int64{c07Len / 4, 5 * c07Len / 8}, [2]int64{c07Len / 2, c07Len + 7}, [2]int64{-5, c07Len / 4}, [2]int64{0, c07Len / 2},
+			[2]int64{c07Len / 2, 5 * c07Len / 8}, [2]int64{c07Len / 4, c07Len})
+	}
+	pr := pairs[verif_choice("instants", len(pairs))]
+	ctx := verifCtx(verifUnix(c07Start + pr[0]))
+	later := verifUnix(c07Start + pr[1])
+	verifSetParams(k, ctx)
+	sender, _ := verifC07Sender(ctx, k)
+	alone := sender.LockedCoins(later).AmountOf(vDenom) // what the sender alone would have locked at the later instant
+	lockedNow := sender.LockedCoins(ctx.BlockTime()).AmountOf(vDenom)
+	U := verif_int_range("U", "1", "1e30")
+	verif_assume(U.LTE(lockedNow))
+	verif_knob("assert_timeout_ms", 120000)
+	_, err := NewMsgServerImpl(k).SplitVesting(sdk.WrapSDKContext(ctx), &types.MsgSplitVesting{FromAddress: c07From, ToAddress: c07To,
+		Amount: sdk.Coins{sdk.Coin{Denom: vDenom, Amount: U}}})
+	if err != nil {
+		return // (Verif_C07_split_exact shows that the split succeeds)
+	}
+	s2 := W.auth.GetAccount(ctx, verifAddr(c07From)).(*vestingtypes.ContinuousVestingAccount)
+	r := W.auth.GetAccount(ctx, verifAddr(c07To)).(*vestingtypes.ContinuousVestingAccount)
+	together := s2.LockedCoins(later).AmountOf(vDenom).Add(r.LockedCoins(later).AmountOf(vDenom))
+	verif_assert(together.Sub(alone).Abs().LTE(sdk.NewInt(2)), "at a later time the two accounts together have locked what the sender alone would have had (within 2 base units)")
+	verif_reach("later instant checked")
+}
